@@ -170,9 +170,10 @@ theorem C06_go_EnumNames (S S' : Schemas) (h : chain goChain S = .ok S') : EnumN
 example : let S := Witness.schemas [Witness.obj "A" (.struct [Witness.fld "e"
       (.enum [{ name := "-1", value := .int "i64" 1, kind := "int64" }, { name := "+x", value := .int "i64" 2, kind := "int64" }] {}) true] [] none {})]
     wfIR S = true ∧ EnumsNamed S = false ∧ EnumNames_php S = false ∧
-    (∃ S', chain goChain S = .ok S') ∧ (∃ S', chain javaChain S = .ok S') ∧
+    (match chain goChain S with | .ok _ => true | _ => false) = true ∧
+    (match chain javaChain S with | .ok _ => true | _ => false) = true ∧
     (match chain phpChain.dropLast S with | .ok _ => true | _ => false) = true := by
-  refine ⟨by decide, by decide, by decide, ⟨_, rfl⟩, ⟨_, rfl⟩, by decide⟩
+  refine ⟨by decide, by decide, by decide, by decide +kernel, by decide +kernel, by decide +kernel⟩
 
 /-! ## Java -/
 
